@@ -26,7 +26,7 @@ EXPLANATION = (
     "false exactly on (all of r_unless_all present) or (any of r_unless present), presence = check_explicit(IsPresent). R3.7 `requires` propagation: gather_requires feeds every explicitly present arg through "
     "unroll_arg_requires with a relevance closure `matched.check_explicit(pred).then(req)` (un-negated) and inserts every result, and "
     "every `requires` of a present group, into the required graph unconditionally; unroll_arg_requires collects every relevant "
-    "requirement of every visited arg and continues through requirements that themselves require something (transitive). NOT decided: correctness of the required graph and "
+    "requirement of every visited arg and continues through requirements that themselves require something (transitive). R3.9 relation setters of Arg/ArgGroup only ever add to the relation vectors; start_custom_arg records an argument's groups exactly on the is_explicit(source) edge. NOT decided: correctness of the required graph and "
     "group unrolling on arbitrary graphs."
 )
 TRUSTED = ["rustc MIR", "clapfacts"]
@@ -355,3 +355,14 @@ def run(ctx):
     # ---- R3.8 presence records only removed for overridden args
     from rules.c07 import removal_census
     removal_census(fx, res, "R3.8")
+
+    # ---- R3.9 relations stay declared (shared with C07 R7.6) and groups are marked present for every explicit source (shared with C06 R6.6)
+    from rules.c07 import relation_setters_accumulate
+    relation_setters_accumulate(fx, res, "R3.9")
+    psc = fx.body("clap_builder::parser::parser::Parser::start_custom_arg")
+    grp = psc.calls_to(r"ArgMatcher::start_custom_group$")
+    require(fx, res, "R3.9", "groups-recorded", psc, r"ArgMatcher::start_custom_group$", len(grp), 1, "start_custom_arg no longer records the groups of a present argument")
+    for c in grp:
+        gl = [g for g in guard_strs(psc, c.bb) if re.match(r"^[TF]:", g)]
+        res.check(gl == ["T:is_explicit(source)"], "R3.9", "groups-present-for-every-explicit-source", c.where(), "groups recorded exactly when the source is explicit (command line or environment)",
+                  "a group is marked present only under %s: a member supplied through its environment variable is explicitly present but conflicts_with(group) / ArgGroup::requires are not enforced for it" % gl)
